@@ -2036,9 +2036,20 @@ impl<'a, SE: extensions::ShellExtensions> WordExpander<'a, SE> {
             }
 
             brush_parser::word::SubstringMatchKind::Anywhere => {
-                regex
-                    .replace_all(s, fancy_regex::NoExpand(replacement))
-                    .into_owned()
+                // A pattern that matches the empty string is applied before every character of
+                // the value, but not once more after the last one.
+                let mut result = String::with_capacity(s.len());
+                let mut last = 0;
+                for m in regex.find_iter(s).map_while(Result::ok) {
+                    if m.start() == m.end() && m.start() == s.len() && !s.is_empty() {
+                        break;
+                    }
+                    result.push_str(&s[last..m.start()]);
+                    result.push_str(replacement);
+                    last = m.end();
+                }
+                result.push_str(&s[last..]);
+                result
             }
         }
     }
